@@ -63,6 +63,49 @@ def Gen.GreaseQ.draw (g : Gen.GreaseQ) : Bool × Gen.GreaseQ :=
   let d := g.pending.headD Grease.none
   ((match d with | Grease.none => false | _ => true), ⟨g.pending.tail, d⟩)
 
+/-! ### the fault injector's random number generator (src/grease.rs), as a tape of draws -/
+
+inductive Gen.Draw where
+  /-- `prng.sample(bernoulli)` -/
+  | coin (b : Bool)
+  /-- `slice.choose(&mut prng)`: the index chosen -/
+  | pick (k : Nat)
+  /-- `index_sample(&mut prng, n, n)`: the drawn index vector -/
+  | perm (p : List Nat)
+  /-- `prng.fill_bytes(buf)`: the bytes drawn -/
+  | bytes (b : Bytes)
+  deriving Repr, DecidableEq
+
+/-- `SmallRng`: the draws still to come (a draw of the wrong kind / an exhausted tape yields a fixed default) -/
+abbrev Gen.Tape := List Gen.Draw
+
+def Gen.Tape.sample (t : Gen.Tape) : Bool × Gen.Tape :=
+  match t with
+  | .coin b :: r => (b, r)
+  | _ :: r => (false, r)
+  | [] => (false, [])
+def Gen.Tape.choose {α} (xs : List α) (t : Gen.Tape) : Option α × Gen.Tape :=
+  match t with
+  | .pick k :: r => (xs[k % (max xs.length 1)]?, r)
+  | _ :: r => (xs.head?, r)
+  | [] => (xs.head?, [])
+def Gen.Tape.indexSample (t : Gen.Tape) (_len _amount : Nat) : List Nat × Gen.Tape :=
+  match t with
+  | .perm p :: r => (p, r)
+  | _ :: r => ([], r)
+  | [] => ([], [])
+def Gen.Tape.fillBytes (t : Gen.Tape) (buf : Bytes) : Bytes × Gen.Tape :=
+  match t with
+  | .bytes b :: r => (b.take buf.length ++ buf.drop b.length, r)
+  | _ :: r => (buf, r)
+  | [] => (buf, [])
+
+/-- the two deliberate pathologies of grease.rs -/
+inductive Gen.Pathology where
+  | randomlyOrderTags
+  | corruptResponseSignature
+  deriving Repr, DecidableEq
+
 /-- `add_errors(&r)`: applies the decision drawn for this response (model `applyGrease`, on the generated message type) -/
 def Gen.GreaseQ.addErrors (g : Gen.GreaseQ) (r : Gen.RtMessage) : Res Gen.RtMessage :=
   match applyGrease g.cur ⟨r.tags.zip r.values⟩ with
